@@ -80,7 +80,7 @@ TasmanianSparseGrid::TasmanianSparseGrid(const TasmanianSparseGrid &source) :
 }
 
 TasmanianSparseGrid& TasmanianSparseGrid::operator=(TasmanianSparseGrid const &source){
-    copyGrid(&source);
+    if (this != &source) copyGrid(&source);
     return *this;
 }
 
@@ -257,7 +257,14 @@ void TasmanianSparseGrid::makeFourierGrid(int dimensions, int outputs, int depth
 }
 
 void TasmanianSparseGrid::copyGrid(const TasmanianSparseGrid *source, int outputs_begin, int outputs_end){
-    if (outputs_end == -1) outputs_end = source->getNumOutputs();
+    if (outputs_end == -1 or outputs_end > source->getNumOutputs()) outputs_end = source->getNumOutputs(); // "outside of the range" means until the last output
+    if (source == this){ // clear() would destroy the source
+        if (outputs_begin == 0 and outputs_end == getNumOutputs()) return;
+        TasmanianSparseGrid restricted;
+        restricted.copyGrid(source, outputs_begin, outputs_end);
+        *this = std::move(restricted);
+        return;
+    }
     clear();
     if (!source->empty()){
         if (source->isGlobal()){
